@@ -38,8 +38,8 @@ def make_resp(frontend, framing, scenario):
         slave, regs = _ctx(st)
         ctx = SL.server_context(slave, single=True)
         pdu1, pdu2 = bytes([6]) + b1, bytes([3]) + b2
-        f1 = adu.ref_adu(framing, pdu1, u, t[0:2])
-        f2 = adu.ref_adu(framing, pdu2, u, t[2:4])
+        f1 = adu.ref_adu_clean(framing, pdu1, u, t[0:2])
+        f2 = adu.ref_adu_clean(framing, pdu2, u, t[2:4])
         if scenario == "one":
             chunks, reqs = [f1], [(6, b1, t[0:2])]
         elif scenario == "two-reads":
@@ -59,7 +59,7 @@ def make_resp(frontend, framing, scenario):
         for fc, body, tid in reqs:
             pdu, newvals = regfile.model(fc, body, table, True)
             table = (0, newvals)
-            expected.append(adu.ref_adu(framing, pdu, u, tid))
+            expected.append(adu.ref_adu_clean(framing, pdu, u, tid))
         if len(r.written) != len(expected):
             explain("%d frames written for %d requests", len(r.written), len(expected))
             return False
@@ -91,7 +91,7 @@ def make_silent(frontend, framing, why):
             ctx = SL.server_context(slave, single=True)
             unit, kw = u, {}
             pdu = bytes([8, 0, 4, 0, 0])
-        r = SL.drive(frontend, framing, ctx, [adu.ref_adu(framing, pdu, unit, t)], **kw)
+        r = SL.drive(frontend, framing, ctx, [adu.ref_adu_clean(framing, pdu, unit, t)], **kw)
         from pymodbus.device import ModbusControlBlock
         ModbusControlBlock().ListenOnly = False
         if r.escaped is not None:
@@ -116,8 +116,8 @@ def make_after_broadcast(frontend, framing):
         assume(1 <= u <= 247)
         slave, regs = _ctx(st)
         ctx = SL.server_context(None, single=False, units=[(u, slave)])
-        f1 = adu.ref_adu(framing, bytes([6]) + b1, 0, t[0:2])
-        f2 = adu.ref_adu(framing, bytes([3]) + b2, u, t[2:4])
+        f1 = adu.ref_adu_clean(framing, bytes([6]) + b1, 0, t[0:2])
+        f2 = adu.ref_adu_clean(framing, bytes([3]) + b2, u, t[2:4])
         chunks = [f1, f2]
         r = SL.drive(frontend, framing, ctx, chunks, broadcast=True)
         if r.escaped is not None:
@@ -127,7 +127,7 @@ def make_after_broadcast(frontend, framing):
         if len(r.written) != 1:
             explain("%d frames written; the broadcast is silent and the following request must be answered once", len(r.written))
             return False
-        return same(r.written[0], adu.ref_adu(framing, pdu2, u, t[2:4]), "response to the request after the broadcast")
+        return same(r.written[0], adu.ref_adu_clean(framing, pdu2, u, t[2:4]), "response to the request after the broadcast")
     return after_broadcast
 
 
@@ -139,7 +139,7 @@ def make_nodata(frontend, framing, fc):
         assume(1 <= u <= 247)
         slave = SL.small_context()
         ctx = SL.server_context(slave, single=True)
-        r = SL.drive(frontend, framing, ctx, [adu.ref_adu(framing, bytes([fc]), u, t)])
+        r = SL.drive(frontend, framing, ctx, [adu.ref_adu_clean(framing, bytes([fc]), u, t)])
         if r.escaped is not None or r.twisted_dropped is not None:
             return False
         if len(r.written) != 1:
@@ -169,14 +169,14 @@ def make_fail(frontend, framing):
         assume(len(t) == 2 and len(b1) == 4)
         assume(1 <= u <= 247)
         ctx = SL.server_context(_Failing(), single=True)
-        r = SL.drive(frontend, framing, ctx, [adu.ref_adu(framing, bytes([3]) + b1, u, t)])
+        r = SL.drive(frontend, framing, ctx, [adu.ref_adu_clean(framing, bytes([3]) + b1, u, t)])
         if r.escaped is not None or r.twisted_dropped is not None:
             explain("exception escaped instead of exception response 04")
             return False
         # quantity check comes before any datastore access: only requests that reach the datastore fail with 04
         q = b1[2] * 256 + b1[3]
         code = 4 if 1 <= q <= 125 else 3
-        exp = adu.ref_adu(framing, bytes([0x83, code]), u, t)
+        exp = adu.ref_adu_clean(framing, bytes([0x83, code]), u, t)
         return len(r.written) == 1 and same(r.written[0], exp, "exception response")
     return fail
 
